@@ -19,11 +19,7 @@ sys.path.insert(0, HERE)
 
 import extract  # noqa: E402
 import prims  # noqa: E402
-from facts import Facts, AnchorLost, Unrecognised  # noqa: E402
-
-
-class GuardMissing(Exception):
-    pass
+from facts import Facts, AnchorLost, Unrecognised, GuardMissing  # noqa: E402
 
 
 class RuleCtx:
@@ -34,8 +30,26 @@ class RuleCtx:
         self.obligations = []
         self.notes = []
         self.sites = 0
+        self.undecided = []
 
     # -- plumbing -------------------------------------------------------------
+    def clause(self, name):
+        """Context manager: an anchor lost inside one clause leaves the other clauses decidable."""
+        ctx = self
+
+        class _C:
+            def __enter__(self_):
+                return self_
+
+            def __exit__(self_, et, ev, tb):
+                if et is None:
+                    return False
+                if issubclass(et, (AnchorLost, Unrecognised, NameError, GuardMissing)):
+                    ctx.undecided.append(f"clause {name}: {et.__name__}: {ev}")
+                    return True
+                return False
+        return _C()
+
     def add(self, ob):
         ob.key = f"{self.prop}|{ob.key}"
         self.obligations.append(ob)
@@ -190,6 +204,7 @@ def main(argv):
     ev_path = os.path.join(EVDIR, f'{prop}.json')
     os.makedirs(os.path.dirname(ev_path), exist_ok=True)
     all_obs = []
+    undecided = []
     notes = []
     per_config = {}
     hdrs = {}
@@ -201,13 +216,14 @@ def main(argv):
                          'features': extract.CONFIGS[cfg], 'extract_s': round(dt, 1)}
             R = RuleCtx(facts, cfg, prop)
             mod.check(R)
+            undecided.extend(f"[{cfg}] {u}" for u in R.undecided)
             for o in R.obligations:
                 o.config = cfg
             all_obs.extend(R.obligations)
             notes.extend(f"[{cfg}] {n}" for n in R.notes)
             per_config[cfg] = len(R.obligations)
             floor = getattr(mod, 'MIN_OBLIGATIONS', {}).get(cfg, 1)
-            if len(R.obligations) < floor:
+            if len(R.obligations) < floor and not R.undecided:
                 raise AnchorLost(f"only {len(R.obligations)} obligations evaluated in config {cfg}, floor {floor}")
     except (AnchorLost, Unrecognised, extract.ExtractError) as e:
         print(f"CHECK-ERROR property={prop} cannot decide: {type(e).__name__}: {e}")
@@ -247,6 +263,11 @@ def main(argv):
                 print(f"    path: {' -> '.join(o.path[:14])}")
         print(f"VIOLATION property={prop} replay={rpath}")
         rc = 1
+    for u in undecided:
+        print(f"CHECK-ERROR property={prop} cannot decide: {u}")
+    if undecided and rc == 0:
+        rc = 2
+    notes = notes + [f"UNDECIDED: {u}" for u in undecided]
     if replay:
         try:
             want = {v['key'] for v in json.load(open(replay)).get('violations', [])}
